@@ -2,7 +2,10 @@
 //! must not wedge the server) and C09 (each handler sees its own peer address)
 //! monitors.  A real dropshot server with ConfigTls, a hand-driven rustls
 //! client so that the handshake can be stalled at a chosen byte.
-use dropshot::{ConfigDropshot, ConfigTls, HandlerTaskMode, ServerBuilder};
+use dropshot::{
+    ConfigDropshot, ConfigTls, HandlerTaskMode, RequestContext, ServerBuilder,
+    WebsocketChannelResult, WebsocketConnection,
+};
 use serde_json::json;
 use std::io::{Read, Write};
 use std::net::{SocketAddr, TcpStream};
@@ -63,6 +66,8 @@ struct TlsClient {
     conn: rustls::ClientConnection,
     sock: TcpStream,
     local: SocketAddr,
+    /// bytes received after the end of the last parsed response
+    pending: Vec<u8>,
 }
 
 impl TlsClient {
@@ -77,7 +82,7 @@ impl TlsClient {
         while conn.wants_write() {
             conn.write_tls(&mut hello).map_err(|e| e.to_string())?;
         }
-        Ok((TlsClient { conn, sock, local }, hello))
+        Ok((TlsClient { conn, sock, local, pending: vec![] }, hello))
     }
 
     /// finish the handshake (after the ClientHello bytes have been sent) and do one request
@@ -91,7 +96,8 @@ impl TlsClient {
         let mut buf = vec![];
         let mut tmp = [0u8; 8192];
         loop {
-            if let Ok((r, _)) = parse_one(&buf, false) {
+            if let Ok((r, used)) = parse_one(&buf, false) {
+                self.pending = buf[used..].to_vec();
                 return Ok(r);
             }
             if Instant::now() > deadline {
@@ -103,6 +109,52 @@ impl TlsClient {
                 Err(e) => return Err(format!("tls read: {e}")),
             }
         }
+    }
+}
+
+/// raw byte echo (each byte XOR 0x5a) over the upgraded connection
+#[dropshot::channel { protocol = WEBSOCKETS, path = "/ws" }]
+async fn ws_echo(rqctx: RequestContext<vmon::srv::C>, upgraded: WebsocketConnection) -> WebsocketChannelResult {
+    use tokio::io::{AsyncReadExt, AsyncWriteExt};
+    let uid = vmon::api::uid_of(&rqctx);
+    rqctx.context().log.push("CH_ENTER", uid, 0, "");
+    let mut io = upgraded.into_inner();
+    let mut buf = [0u8; 4096];
+    loop {
+        let n = io.read(&mut buf).await?;
+        if n == 0 {
+            break;
+        }
+        for b in &mut buf[..n] {
+            *b ^= 0x5a;
+        }
+        io.write_all(&buf[..n]).await?;
+        io.flush().await?;
+    }
+    Ok(())
+}
+
+impl TlsClient {
+    fn raw_write(&mut self, data: &[u8]) -> Result<(), String> {
+        let mut tls = rustls::Stream::new(&mut self.conn, &mut self.sock);
+        tls.write_all(data).and_then(|_| tls.flush()).map_err(|e| format!("tls write: {e}"))
+    }
+    fn raw_read_exact(&mut self, n: usize, watchdog: Duration) -> Result<Vec<u8>, String> {
+        self.sock.set_read_timeout(Some(watchdog)).ok();
+        let mut tls = rustls::Stream::new(&mut self.conn, &mut self.sock);
+        let mut out = vec![0u8; n];
+        let take = self.pending.len().min(n);
+        out[..take].copy_from_slice(&self.pending[..take]);
+        self.pending.drain(..take);
+        let mut got = take;
+        while got < n {
+            match tls.read(&mut out[got..]) {
+                Ok(0) => return Err(format!("eof after {got} of {n} bytes")),
+                Ok(k) => got += k,
+                Err(e) => return Err(format!("tls read after {got} of {n} bytes: {e}")),
+            }
+        }
+        Ok(out)
     }
 }
 
@@ -123,7 +175,9 @@ fn start_tls(log: &EvLog, mode: HandlerTaskMode) -> Result<TlsServer, String> {
         log_headers: vec![],
     };
     let ctx = Ctx::new(log.clone());
-    let b = ServerBuilder::new(echo_api(&[]), ctx, discard_logger()).config(config).tls(Some(tls));
+    let mut api = echo_api(&[]);
+    api.register(ws_echo).map_err(|e| e.to_string())?;
+    let b = ServerBuilder::new(api, ctx, discard_logger()).config(config).tls(Some(tls));
     let server = rt.block_on(async move { b.start() }).map_err(|e| format!("start: {e}"))?;
     let addr = server.local_addr();
     Ok(TlsServer { rt, server: Some(server), addr })
@@ -318,6 +372,220 @@ fn run_c09(seed: u64, rounds: usize) -> Report {
     rep
 }
 
+/// C20 over TLS: a channel endpoint on an HTTPS server answers 101 with the RFC
+/// 6455 digest, enters the handler and carries bytes both ways.
+fn run_c20(seed: u64, rounds: usize) -> Report {
+    let mut rep = Report::new(
+        "C20",
+        "E2-tls-channel",
+        "a channel endpoint on an HTTPS server (ConfigTls), both task modes: complete handshakes (fixed RFC 6455 sample key, so the          expected accept value is the RFC's own test vector) must get 101 + the digest, a CH_ENTER event, and an XOR-echo of payloads of          1 B - 256 KiB sent after the 101 or coalesced with the handshake; handshakes without a key / with version 8 must get 4xx and          no CH_ENTER; class = (mode, case, payload size class, coalesced?)",
+    );
+    let cfg = client_config();
+    for mode in [HandlerTaskMode::Detached, HandlerTaskMode::CancelOnDisconnect] {
+        let log = EvLog::new();
+        let srv = match start_tls(&log, mode) {
+            Ok(s) => s,
+            Err(e) => {
+                rep.inconclusive(&format!("tls server start: {e}"));
+                continue;
+            }
+        };
+        let mode_tag = if matches!(mode, HandlerTaskMode::Detached) { "det" } else { "cod" };
+        for r in 0..rounds {
+            let mut rng = Rng::derive(seed, "c20-tls", if mode_tag == "det" { 0 } else { 1 }, r as u64);
+            let case = *rng.pick(&["complete", "complete", "complete", "no-key", "version-8"]);
+            let uid = next_uid();
+            let mut req = Req::new("GET", "/ws").uid(uid).header("connection", "Upgrade").header("upgrade", "websocket");
+            if case != "version-8" {
+                req = req.header("sec-websocket-version", "13");
+            } else {
+                req = req.header("sec-websocket-version", "8");
+            }
+            if case != "no-key" {
+                req = req.header("sec-websocket-key", "dGhlIHNhbXBsZSBub25jZQ==");
+            }
+            let n = *rng.pick(&[1usize, 17, 4096, 70_000, 262_144]);
+            let payload = rng.bytes(n);
+            let coalesce = rng.bool() && n <= 4096;
+            let (mut c, hello) = match TlsClient::connect(srv.addr, &cfg) {
+                Ok(x) => x,
+                Err(e) => {
+                    rep.inconclusive(&format!("connect: {e}"));
+                    continue;
+                }
+            };
+            if c.sock.write_all(&hello).is_err() {
+                rep.inconclusive("hello write");
+                continue;
+            }
+            let mut wire = req.encode();
+            if coalesce && case == "complete" {
+                wire.extend_from_slice(&payload);
+            }
+            rep.eval(format!("{mode_tag}|{case}|n{}|co{}", n.min(99999), coalesce as u8));
+            let resp = match c.request(&wire, Duration::from_secs(20)) {
+                Ok(r) => r,
+                Err(e) => {
+                    rep.inconclusive(&format!("no handshake response: {}", e.chars().take(40).collect::<String>()));
+                    continue;
+                }
+            };
+            let wit = |extra: serde_json::Value| json!({"seed": seed, "round": r, "mode": mode_tag, "transport": "tls", "case": case,
+                "payload_len": n, "coalesced": coalesce, "status": resp.status, "detail": extra});
+            let entered = |log: &EvLog| log.snapshot().iter().any(|e| e.kind == "CH_ENTER" && e.uid == uid);
+            if case != "complete" {
+                if resp.status == 101 {
+                    rep.violate(format!("C20:incomplete-handshake-upgraded:tls:{case}"), wit(json!({})));
+                } else if !(400..500).contains(&resp.status) {
+                    rep.violate(format!("C20:incomplete-handshake-not-4xx:tls:{case}"), wit(json!({})));
+                }
+                std::thread::sleep(Duration::from_millis(5));
+                if entered(&log) {
+                    rep.violate(format!("C20:incomplete-handshake-entered-handler:tls:{case}"), wit(json!({})));
+                }
+                continue;
+            }
+            if resp.status != 101 {
+                rep.violate("C20:complete-handshake-refused:tls", wit(json!({"body": String::from_utf8_lossy(&resp.body)})));
+                continue;
+            }
+            if resp.header_str("sec-websocket-accept").as_deref() != Some("s3pPLMBiTxaQ9kYGzzhZRbK+xOo=") {
+                rep.violate("C20:accept-digest-mismatch:tls", wit(json!({"accept": resp.header_str("sec-websocket-accept")})));
+            }
+            if !coalesce {
+                if let Err(e) = c.raw_write(&payload) {
+                    rep.violate("C20:post-upgrade-bytes-lost:tls:write-failed", wit(json!({"error": e})));
+                    continue;
+                }
+            }
+            match c.raw_read_exact(n, Duration::from_secs(20)) {
+                Ok(echo) => {
+                    let ok = echo.iter().zip(payload.iter()).all(|(a, b)| *a == (*b ^ 0x5a));
+                    if !ok {
+                        rep.violate("C20:post-upgrade-bytes-altered:tls", wit(json!({})));
+                    } else {
+                        rep.count("tls_bytes_echoed", n as u64);
+                        if rep.want_sample() {
+                            rep.sample(wit(json!({"echo": "intact"})));
+                        }
+                    }
+                }
+                Err(e) if e.contains("eof") => {
+                    rep.violate(
+                        "C20:post-upgrade-bytes-lost:tls",
+                        wit(json!({"error": e, "handler_entered": entered(&log)})),
+                    );
+                }
+                Err(e) => rep.inconclusive(&format!("echo read: {}", e.chars().take(40).collect::<String>())),
+            }
+            if !entered(&log) {
+                rep.violate("C20:upgraded-connection-not-handed-to-handler:tls", wit(json!({})));
+            }
+        }
+        drop(srv);
+    }
+    rep
+}
+
+/// C17 over TLS: idle keep-alive TLS connections must not hold up shutdown;
+/// a started handler whose client stays still gets its response.
+fn run_c17(seed: u64, rounds: usize) -> Report {
+    let mut rep = Report::new(
+        "C17",
+        "E2-tls-shutdown",
+        "HTTPS servers in both task modes with k idle keep-alive TLS connections (one request served, then idle) and j connections          that only completed the handshake, all HELD open while close() is called; bounded-progress rule: close() must return while the          idle clients are still connected; if it has not after a 15 s watchdog the clients are released, and a return right after          that release is a violation (shutdown was waiting for idle clients), no return at all is inconclusive; afterwards the port          must refuse connections; class = (mode, k, j)",
+    );
+    let cfg = client_config();
+    for r in 0..rounds {
+        let mut rng = Rng::derive(seed, "c17-tls", 0, r as u64);
+        let mode = if rng.bool() { HandlerTaskMode::Detached } else { HandlerTaskMode::CancelOnDisconnect };
+        let mode_tag = if matches!(mode, HandlerTaskMode::Detached) { "det" } else { "cod" };
+        let log = EvLog::new();
+        let mut srv = match start_tls(&log, mode) {
+            Ok(s) => s,
+            Err(e) => {
+                rep.inconclusive(&format!("tls server start: {e}"));
+                continue;
+            }
+        };
+        let (k, j) = (rng.usize(4), rng.usize(3));
+        let mut held: Vec<TlsClient> = vec![];
+        let mut ok = true;
+        for i in 0..(k + j) {
+            let Ok((mut c, hello)) = TlsClient::connect(srv.addr, &cfg) else {
+                ok = false;
+                break;
+            };
+            if c.sock.write_all(&hello).is_err() {
+                ok = false;
+                break;
+            }
+            let uid = next_uid();
+            if i < k {
+                match c.request(&Req::new("GET", "/health").uid(uid).encode(), Duration::from_secs(20)) {
+                    Ok(resp) if resp.status == 200 => {}
+                    _ => {
+                        ok = false;
+                        break;
+                    }
+                }
+            } else {
+                // handshake only: drive it by writing nothing at application level
+                let mut tls = rustls::Stream::new(&mut c.conn, &mut c.sock);
+                let _ = tls.flush();
+                while c.conn.is_handshaking() {
+                    if c.conn.complete_io(&mut c.sock).is_err() {
+                        break;
+                    }
+                }
+            }
+            held.push(c);
+        }
+        if !ok {
+            rep.inconclusive("could not set up idle tls connections");
+            continue;
+        }
+        rep.eval(format!("{mode_tag}|k{k}|j{j}"));
+        let server = srv.server.take().unwrap();
+        let handle = srv.rt.handle().clone();
+        let (tx, rx) = std::sync::mpsc::channel();
+        std::thread::spawn(move || {
+            let r = handle.block_on(server.close());
+            let _ = tx.send(r);
+        });
+        let wit = |extra: serde_json::Value| json!({"seed": seed, "round": r, "mode": mode_tag, "transport": "tls",
+            "idle_keep_alive_connections": k, "handshake_only_connections": j, "detail": extra});
+        match rx.recv_timeout(Duration::from_secs(15)) {
+            Ok(res) => {
+                rep.count("close_returned_with_idle_tls_clients_connected", 1);
+                if res.is_err() {
+                    rep.violate("C17:tls:close-returned-error", wit(json!({"result": format!("{res:?}")})));
+                }
+                if rep.want_sample() {
+                    rep.sample(wit(json!({"close": "returned while clients held"})));
+                }
+            }
+            Err(_) => {
+                held.clear();
+                match rx.recv_timeout(Duration::from_secs(15)) {
+                    Ok(_) => rep.violate(
+                        "C17:tls:shutdown-held-up-by-idle-connections",
+                        wit(json!({"close": "returned only after the idle clients disconnected"})),
+                    ),
+                    Err(_) => rep.inconclusive("tls close() did not return within the watchdogs"),
+                }
+            }
+        }
+        // the port must refuse now
+        if TcpStream::connect_timeout(&srv.addr, Duration::from_secs(2)).is_ok() {
+            // something listens: only a violation if it is still this server (cannot tell cheaply) => count
+            rep.count("port_answered_after_close", 1);
+        }
+        drop(held);
+    }
+    rep
+}
+
 fn main() {
     vmon::panics::install();
     let mut a = std::env::args().skip(1);
@@ -339,8 +607,10 @@ fn main() {
     let mut rep = match engine.as_str() {
         "c18-tls" => run_c18(seed, if quick { 40 } else { 1500 }),
         "c09-tls" => run_c09(seed, if quick { 60 } else { 3000 }),
+        "c20-tls" => run_c20(seed, if quick { 60 } else { 3000 }),
+        "c17-tls" => run_c17(seed, if quick { 30 } else { 800 }),
         _ => {
-            eprintln!("usage: vmon_tls c18-tls|c09-tls --seed N --tier T --out F");
+            eprintln!("usage: vmon_tls c18-tls|c09-tls|c20-tls|c17-tls --seed N --tier T --out F");
             std::process::exit(2)
         }
     };
